@@ -137,3 +137,113 @@ func VH_C08_CacheTransparent() {
 	vhSameRegisters(warm.base, cold.base, "final ledger")
 	vhReach("cache-done")
 }
+
+// Compact (same-typed composite) inlined maps under the same differential:
+// return values and logical content are identical warm and after
+// commit + reopen (registers may legitimately differ for compact maps).
+//
+//vh:prop C08
+//vh:init cbor
+//vh:sched first
+//vh:param children 2 3
+func VH_C08_CompactCacheTransparent() {
+	vhSetThreshold(256)
+	nchild := vhParam("children", 2)
+	nkeys := 2
+	vals := make([][]uint64, nchild)
+	for c := range vals {
+		for k := 0; k < nkeys; k++ {
+			vals[c] = append(vals[c], vhRange("cval", 0, 1000))
+		}
+	}
+	addr := vhAddr(1)
+	type run struct {
+		base *vBase
+		st   *PersistentSlabStorage
+		m    *OrderedMap
+	}
+	mk := func() *run {
+		r := &run{base: newVBase()}
+		r.st = vhNewPersistentB(r.base)
+		r.m, _ = vhCompactParentVals(r.st, addr, vals)
+		return r
+	}
+	warm, cold := mk(), mk()
+	rootID := warm.m.SlabID()
+	vhAssert(cold.st.FastCommit(1) == nil, "commit")
+	if vhChoose("schedule", 2) == 0 {
+		cold.st.DropCache()
+	} else {
+		cold.st = vhNewPersistentB(cold.base)
+	}
+	cm, err := NewMapWithRootID(cold.st, rootID, NewDefaultDigesterBuilder())
+	vhAssert(err == nil, "reopen from ledger")
+	if err != nil {
+		return
+	}
+	cold.m = cm
+	// operation on one child, through the parent
+	target := vhChoose("target", nchild)
+	op := vhChoose("op", 3)
+	newv := vhRange("newval", 0, 1000)
+	for _, r := range []*run{warm, cold} {
+		v, err := r.m.Get(vhCompareBK, vhHipB, vBKey{val: uint64(target + 1)})
+		vhAssert(err == nil, "get target child")
+		if err != nil {
+			return
+		}
+		c, ok := v.(*OrderedMap)
+		vhAssert(ok, "child is a map")
+		if !ok {
+			return
+		}
+		switch op {
+		case 0:
+			_, _, err = c.Remove(vhCompareBK, vhHipB, vBKey{val: 100})
+			vhAssert(err == nil, "remove a field from one child")
+		case 1:
+			_, err = c.Set(vhCompareBK, vhHipB, vBKey{val: 100}, vU64(newv))
+			vhAssert(err == nil, "overwrite a field in one child")
+		case 2:
+			_, err = c.Set(vhCompareBK, vhHipB, vBKey{val: 999}, vU64(newv))
+			vhAssert(err == nil, "add a field to one child")
+		}
+	}
+	// every child's content is identical in both runs
+	read := func(r *run, c, k int) (uint64, bool) {
+		v, err := r.m.Get(vhCompareBK, vhHipB, vBKey{val: uint64(c + 1)})
+		if err != nil {
+			return 0, false
+		}
+		cmap, ok := v.(*OrderedMap)
+		if !ok {
+			return 0, false
+		}
+		fv, err := cmap.Get(vhCompareBK, vhHipB, vBKey{val: uint64(100 + k)})
+		if err != nil {
+			return 0, false
+		}
+		u, ok := fv.(vU64)
+		return uint64(u), ok
+	}
+	for c := 0; c < nchild; c++ {
+		for k := 0; k < nkeys; k++ {
+			wv, wok := read(warm, c, k)
+			cv, cok := read(cold, c, k)
+			vhAssert(wok == cok, "same fields present warm and after reload")
+			if wok && cok {
+				vhAssert(wv == cv, "same field values warm and after reload")
+			}
+			if !(c == target && k == 0) {
+				vhAssert(wok, "untouched fields stay readable")
+				if wok {
+					vhAssert(wv == vals[c][k], "untouched fields keep their values")
+				}
+			}
+		}
+	}
+	ws := VerifyMap(warm.m, addr, vTypeInfo{id: 42}, vhTic, vhHipB, true)
+	cs := VerifyMap(cold.m, addr, vTypeInfo{id: 42}, vhTic, vhHipB, true)
+	vhAssert(ws == nil && cs == nil, "both structurally valid")
+	vhReach("compact-cache-done")
+}
